@@ -165,12 +165,15 @@ OnDp(rs, e) ==
       cyclesAfter == IF rs.faultsEnd /\ e.cc THEN rs.cyclesAfter + 1 ELSE rs.cyclesAfter
       allRunning == \A p \in 1..rs.NP : e.running[p]
       recoverOk == (rs.faultsEnd /\ cyclesAfter > cfg.bdp) => allRunning
-      cs == << <<"C14.life", lifeOk>>, <<"C14.flags", flagsOk>>, <<"C04.in", inOk>>, <<"C04.event", evOk>>, <<"C07.running", recoverOk>> >>
+      (* C08: a peripheral is declared offline after an unanswered request, never right after a request whose reply   *)
+      (* was accepted (the request that follows an accepted reply toggles the bit, it does not start over)            *)
+      offOk == ek = "Offline" => (ep \in 1..rs.NP /\ pr0.answered # "pos")
+      cs == << <<"C14.life", lifeOk>>, <<"C14.flags", flagsOk>>, <<"C04.in", inOk>>, <<"C04.event", evOk>>, <<"C08.offline", offOk>>, <<"C07.running", recoverOk>> >>
       per2 == [p \in 1..rs.NP |-> [per1[p] EXCEPT !.pii = e.pii[p]]]
       rs1 == [rs EXCEPT !.per = per2, !.cyclesAfter = cyclesAfter, !.cycles = IF e.cc THEN @ + 1 ELSE @,
                         !.cycleSeq = IF e.cc THEN <<>> ELSE @, !.repeats = IF e.cc THEN 0 ELSE @,
                         !.out = @]
-      hits == (IF hasEv THEN <<"C14.life", "C14.ev." \o ek>> ELSE <<>>) \o (IF e.cc THEN <<"C14.cycle">> ELSE <<>>)
+      hits == (IF hasEv THEN <<"C14.life", "C14.ev." \o ek>> ELSE <<>>) \o (IF ek = "Offline" THEN <<"C08.offline">> ELSE <<>>) \o (IF e.cc THEN <<"C14.cycle">> ELSE <<>>)
               \o (IF \E p \in 1..rs.NP : e.pii[p] # rs.per[p].pii THEN <<"C04.in">> ELSE <<>>)
               \o (IF rs.faultsEnd /\ e.cc /\ allRunning THEN <<"C07.running">> ELSE <<>>)
   IN RS(cs, [ev |-> ek, p |-> ep], rs1, hits)
@@ -190,7 +193,7 @@ RuleStep(rs, e) ==
     [] e.ev = "End"       -> OnEnd(rs, e)
     [] OTHER              -> R("ok", NoSig, rs, <<>>)
 
-AllClauses == {"C08.req", "C08.first", "C08.probe", "C08.same", "C08.toggle", "C08.limit",
+AllClauses == {"C08.req", "C08.first", "C08.probe", "C08.same", "C08.toggle", "C08.limit", "C08.offline",
                "C03.saps", "C03.order", "C03.prm", "C03.wd", "C03.cfg", "C04.out", "C04.in", "C04.event",
                "C14.configured", "C14.pass", "C14.life", "C14.flags", "C14.cycle",
                "C14.ev.Online", "C14.ev.Configured", "C14.ev.DataExchanged", "C14.ev.Diagnostics", "C14.ev.Offline",
